@@ -62,7 +62,7 @@ func (m *Monitor) TCPRead(c *TCPConn, b []byte) {
 		frame := cs.buf[:n]
 		cs.buf = cs.buf[n:]
 		m.curSrc = "tcp:" + c.Name
-		m.srvRecv(cs.client, frame, true, now)
+		m.srvRecv(cs.client, frame, len(frame) < m.InboundMTU, now) // the read loop drops what does not fit its buffer, on streams too
 	}
 }
 
